@@ -14,6 +14,7 @@
    isoformat/isoparse - the JSON statements take it as the argument [cal]. *)
 From BP Require Import Base.Prelude Model.Varint Model.Scalar Model.Time Spec.Varint Spec.Time.
 From BP Require Import Proofs.TimeP.
+From BP Require Model.TimeCore Model.Json Spec.JsonMap Proofs.C15CalP.
 From BP Require Model.Types gen.Tables.
 
 (* ------------------------------------------------------------------------------------------ *)
@@ -177,6 +178,29 @@ Print Assumptions C15_parse_dur_total.
 Theorem C15_json_ts : forall cal dt, timestamp_to_json cal dt = Ok (ts_json cal (snd (ts_of_us (instant dt)))).
 Proof. exact timestamp_to_json_is_spec. Qed.
 Print Assumptions C15_json_ts.
+
+(* ... and WITHOUT the oracle: with the proleptic-Gregorian calendar of Model/Json.v (civil_of_days / days_of_civil proved
+   inverse over the years 1..9999, Proofs/C04Cal*.v) as [cal], the text written for any aware datetime in range is the
+   canonical RFC 3339 UTC string of the reference's (seconds, nanos) pair of its instant, a conforming reader reads that pair
+   from it, and betterproto's own reader (the isoparse model) returns the same instant. *)
+Theorem C15_json_ts_calendar : forall dt,
+  (Model.TimeCore.dt_min_us <=? instant dt) && (instant dt <=? Model.TimeCore.dt_max_us) = true ->
+  exists text,
+    timestamp_to_json (Model.Json.cal_text (instant dt / 1000000)) dt = Ok text /\
+    text = Spec.JsonMap.ts_str (fst (ts_of_us (instant dt))) (snd (ts_of_us (instant dt))) /\
+    Spec.JsonMap.ts_parse text = Some (ts_of_us (instant dt)) /\
+    Model.Json.iso_parse text = Ok (instant dt).
+Proof. exact C15CalP.timestamp_json_full. Qed.
+Print Assumptions C15_json_ts_calendar.
+
+(* non-vacuity: 0001-01-01T00:00:00.000001+05:30, i.e. a wall clock whose UTC instant is still inside year 1 *)
+Example C15_ex_json_ts_calendar :
+  let dt := mkdt (-62135596800000000 + 19800000000 + 1) 19800000000 in
+  (Model.TimeCore.dt_min_us <=? instant dt) && (instant dt <=? Model.TimeCore.dt_max_us) = true /\
+  timestamp_to_json (Model.Json.cal_text (instant dt / 1000000)) dt =
+    Ok [x30; x30; x30; x31; x2d; x30; x31; x2d; x30; x31; x54; x30; x30; x3a; x30; x30; x3a; x30; x30; x2e;
+        x30; x30; x30; x30; x30; x31; x5a].
+Proof. vm_compute. split; reflexivity. Qed.
 
 (* reading the fraction back gives the microsecond that was written *)
 Theorem C15_json_ts_roundtrip : forall u, 0 <= u < 1000000 -> ts_suffix_parse (frac (u * 1000) ++ [cZ]) = Some u.
